@@ -14,13 +14,14 @@ use std::process::{Command, Stdio};
 pub const CLI_TARGET: &str = "/verif/mc/target-cli";
 
 /// (file name, content); None content = the file does not exist
-const SCHEMAS: [(&str, Option<&str>); 9] = [
+const SCHEMAS: [(&str, Option<&str>); 10] = [
   ("plain.cddl", Some("r = { x: int }\n")),
   ("feat.cddl", Some("r = { x: int / ((tstr .size 1) .feature \"alpha\"), ? y: int / ((tstr .size 1) .feature \"beta\") }\n")),
   ("genfirst.cddl", Some("w<t> = { x: t }\nr = w<int>\n")),
   ("groupfirst.cddl", Some("g = ( x: int )\nr = { g }\n")),
   ("rows.cddl", Some("r = [* [tstr, int]]\n")),
   ("rowsfeat.cddl", Some("r = [* [tstr, int / ((tstr .size 1) .feature \"alpha\")]]\n")),
+  ("scalar.cddl", Some("r = int / tstr\n")),
   ("broken.cddl", Some("r = { x: \n")),
   ("noroot.cddl", Some("g = ( x: int )\n")),
   ("missing.cddl", None),
@@ -97,6 +98,10 @@ fn stdins() -> Vec<(&'static str, Vec<u8>)> {
     ("cbor-bad", get("bad.cbor")),
     // one CBOR data item that is also valid UTF-8 (0x01 = unsigned 1): the tool documents that it reads this as JSON
     ("utf8-cbor", vec![0x01]),
+    // UTF-8 texts that are malformed JSON and at the same time one well-formed CBOR item (-14, "X")
+    ("utf8-cbor-nint", b"-".to_vec()),
+    ("utf8-cbor-text", b"aX".to_vec()),
+    ("json-scalar", b"1".to_vec()),
   ]
 }
 
@@ -553,10 +558,10 @@ pub fn run(tier: Tier) -> i32 {
   run.set("schemas", json!(SCHEMAS.iter().map(|s| s.0).collect::<Vec<_>>()));
   run.set("feature_spellings", json!(FEATS.iter().map(|f| f.0.join(" ")).collect::<Vec<_>>()));
   run.rule = format!(
-    "state = one process run of the cddl binary built from /repo's working tree. validate: 9 schema files (plain, .feature-guarded, generic rule first, group rule first, CSV rows, \
-     rows with .feature, syntactically broken, no root type, missing file) x 6 --features spellings (none, -f a, --features b, -f a,b, -f a -f b, --features=c,a) x --ci on/off x every \
+    "state = one process run of the cddl binary built from /repo's working tree. validate: 10 schema files (plain, .feature-guarded, generic rule first, group rule first, CSV rows, \
+     rows with .feature, scalar, syntactically broken, no root type, missing file) x 6 --features spellings (none, -f a, --features b, -f a,b, -f a -f b, --features=c,a) x --ci on/off x every \
      ordered sequence of <= {} documents from a menu of 20 files (8 JSON, 8 CBOR, 4 CSV: valid, invalid, valid only without feature alpha / beta (a .feature-guarded '(tstr .size 1)' that the validators only look at when the feature is enabled), malformed, missing) with comma-joined and \
-     repeated flags and --csv-header on/off when a CSV file is present x stdin absent or one of 7 contents (JSON / non-UTF-8 CBOR / UTF-8-valid CBOR; with sequences of <= {} files). \
+     repeated flags and --csv-header on/off when a CSV file is present x stdin absent or one of 10 contents (JSON / non-UTF-8 CBOR / UTF-8 texts that are malformed JSON but well-formed CBOR; with sequences of <= {} files). \
      Oracle: the library entry points called in-process with the same schema text, bytes, header flag and feature list; the tool must print a success line exactly for the documents the \
      library accepts, in processing order (with --ci up to the first failure), and with --ci exit non-zero exactly when a document fails, is missing or the schema does not compile. \
      compile-cddl: {} texts (multi-rule documents, all single-character deletions of 6 base documents, undefined reference, duplicate rule) with and without --ci, plus a missing file: \
